@@ -118,8 +118,11 @@ Definition model_ok (c : c03case) : bool :=
   | CMapLogV ancs segs obs =>
     let check := fun tw =>
       let '(st, lg) := vseg_go tw ancs ([], []) segs in
+      (* the same mutations without any restart (right-hand side of C03_maplog_restarts_interleaved) *)
+      let stflat := fst (vrun tw ancs ([], []) (concat segs)) in
       forallb (fun x : N * list (N * N * N * N) * list (N * N * N * N) => let '(v, b, a) := x in
                  list_eqb quad_eqb (vsplits st (anc_of ancs v)) b &&
+                 (tw || list_eqb quad_eqb (vsplits stflat (anc_of ancs v)) b) &&
                  list_eqb quad_eqb (vsplits (vreplay lg) (anc_of ancs v)) a) obs in
     check true || check false
   | CNext _ _ => true
